@@ -92,6 +92,8 @@ def mk_file_response(file_, iface):
     return Contract(
         id=iface + ".Files.file_response", file=file_, qualname="Files.file_response", props=["C14", "C04"],
         params={"self": ObjT(cls), "filepath": Str, "stat_result": STAT_T, "if_none_match": Str, "if_modified_since": Str},
+        # at call sites: an abstract response with the decision (`kind` 304 / 200) and, for 200, the file it will open
+        returns=ObjT(file_.replace("staticfiles", "responses") + ":Response", kind=Int, filepath=Str),
         ghosts={"fx": ObjT("FxGhost", n_set_headers=Int), "pieces": List(Str)},
         requires=["fx.n_set_headers == 0"],
         defs=DEFS,
